@@ -34,6 +34,7 @@ impl Prop for P {
             rule: "streams from 4 sources (grammar-constructed valid DEFLATE/zlib streams weighted highest; the crate's compressor; system zlib; repository files), each pushed through ~10 decoder entry points with a generated chunk/budget schedule; plaintext oracle = token expansion / reference inflater. Non-trivial = the stream contains a used code > 10 bits, a one-symbol code, a stored block at a non-zero bit offset, an empty block, a code-length run crossing the literal/distance boundary, a length-258 or distance-32768 match, or an overlapping copy; distinct by fingerprint of the whole case",
             assumptions: &["reference inflater (oracle/inflate.rs) implements RFC 1951/1950; cross-checked against the grammar's own token expansion and system zlib in the self-check", "RFC-silent table shapes follow zlib's convention (DESIGN 3.1)"],
             dbg: false,
+            simd: false,
             exhaustive: None,
         }
     }
